@@ -91,3 +91,28 @@ package libp2pwebtransport
 //@ callsite Reset#0 requires arg1 == m.currentConfig.End() - S - now
 //@ callsite rollConfig#0 requires called(Now, 0) && now == ret(Now, 0, 0)
 //@ modifies m.lastConfig, m.currentConfig, m.nextConfig, m.serializedCertHashes, m.addrComp, elems(_)
+
+// the hashes the listener confirms in the Noise early data are those of the previous, the current and the next
+// certificate (one entry each, in that order of presence): an address learned in the previous period (hashes k-1, k)
+// is still confirmed completely after the rollover
+//@ func (m *certManager) cacheSerializedCertHashes
+//@ prop C18
+//@ requires m.currentConfig != nil
+//@ loop 0 invariant len(m.serializedCertHashes) == idx0 && 0 <= idx0 && idx0 <= len(hashes)
+//@ loop 0 invariant len(hashes) == ite(m.lastConfig != nil, 1, 0) + 1 + ite(m.nextConfig != nil, 1, 0)
+//@ loop 0 iteration called(Encode, 0) && arg(Encode, 0, 1) == multihash.SHA2_256 && ret(Encode, 0, 1) == nil && m.serializedCertHashes[len(m.serializedCertHashes)-1] == ret(Encode, 0, 0)
+//@ ensures result == nil ==> len(m.serializedCertHashes) == ite(m.lastConfig != nil, 1, 0) + 1 + ite(m.nextConfig != nil, 1, 0)
+//@ ensures m.lastConfig == old(m.lastConfig) && m.currentConfig == old(m.currentConfig) && m.nextConfig == old(m.nextConfig)
+//@ modifies m.serializedCertHashes, elems(m.serializedCertHashes)
+
+// a dial to an address with certificate hashes always runs the pinning check: the TLS configuration handed to QUIC
+// skips the WebPKI verification only together with the hook that calls verifyRawCerts with exactly the hashes of the
+// dialed address (whatever client configuration the transport was built with)
+//@ func (t *transport) dial
+//@ prop C18
+//@ callsite DialQUIC#0 requires len(certHashes) > 0 ==> arg3 != nil && arg3.InsecureSkipVerify && arg3.VerifyPeerCertificate == closure(0)
+//@ callsite DialQUIC#0 requires len(certHashes) == 0 && old(t.tlsClientConf) == nil ==> !arg3.InsecureSkipVerify
+//@ noframe
+//@ closure 0
+//@ ensures called(verifyRawCerts, 0) && arg(verifyRawCerts, 0, 0) == rawCerts && arg(verifyRawCerts, 0, 1) == certHashes && result == ret(verifyRawCerts, 0, 0)
+//@ noframe
